@@ -32,7 +32,7 @@ fn op_name(o: Op) -> &'static str {
 
 fn apply(it: &mut FindMatches, op: Op) -> String {
     match op {
-        Op::Next => format!("{:?}|m{}", it.next().map(|m| (m.token_type(), m.start(), m.end())), it.current_mode()),
+        Op::Next => format!("{:?}|m{}", it.next().map(|m| bridge::tok(&m)), it.current_mode()),
         Op::Peek2 => format!("{:?}|m{}", it.peek_n(2), it.current_mode()),
         Op::SetMode1 => {
             it.set_mode(1);
@@ -312,7 +312,7 @@ pub fn run(tier: Tier) -> ! {
                             // the token, the mode after it and where the iterator says the token lies
                             let m = it.next();
                             let pos = m.as_ref().map(|m| (it.position(m.start()), it.position(m.end())));
-                            obs.push(format!("{:?}|m{}|{:?}", m.map(|m| (m.token_type(), m.start(), m.end())), it.current_mode(), pos));
+                            obs.push(format!("{:?}|m{}|{:?}", m.map(|m| bridge::tok(&m)), it.current_mode(), pos));
                         }
                         P::Peek(n) => {
                             let _ = it.peek_n(*n);
@@ -331,7 +331,7 @@ pub fn run(tier: Tier) -> ! {
                 for _ in 0..input.len() + 1 {
                     let m = it.next();
                     let pos = m.as_ref().map(|m| (it.position(m.start()), it.position(m.end())));
-                    obs.push(format!("{:?}|{:?}", m.map(|m| (m.token_type(), m.start(), m.end())), pos));
+                    obs.push(format!("{:?}|{:?}", m.map(|m| bridge::tok(&m)), pos));
                 }
                 obs
             })
